@@ -329,7 +329,19 @@ func c15R1(r *Run, ro *c15Roles) {
 					o := r.Ob(R, ssaFuncName(f)+"#call:"+emitText.Name(), in.Pos())
 					os := tr.Origins(ci.Common().Args[pidx])
 					want := c10Origin{c10Shared, "ast.Text.Text"}
-					if len(os) == 1 && os[0] == want {
+					// a nil slice (a helper returning "nothing to emit") carries no text: only the
+					// non-constant origins must be the Text field
+					hasWant, onlyWant := false, true
+					for _, og := range os {
+						switch {
+						case og == want:
+							hasWant = true
+						case og.Kind == c10Const:
+						default:
+							onlyWant = false
+						}
+					}
+					if hasWant && onlyWant {
 						o.OK("the text passed is a (sub-slice of a) Text node's Text field")
 					} else {
 						o.Bad("the text passed to the emitter is not just a sub-slice of an ast.Text.Text: %s", c10Join(os))
